@@ -10,6 +10,7 @@ import symx.ext_c16 as X
 from symx.core import (PI_F, TWOPI_F, SReal, assume, cur, eq_arrays, explore, free_vars, identify_lemma, integer, marray, mfloat, mval, real,
                        reals, refute, resume, rv, slice_for, trig)
 from symx.runner import Ob, _jsonable
+from symx.stubs import shadow as X_shadow
 
 ID = "C16"
 TECHNIQUE = ("symbolic execution of the real wrapping / residual / circular-mean helpers and of the real UnscentedKalmanFilter predict/forecast/update "
@@ -30,6 +31,8 @@ ENCODED = [
     "resonaate.estimation.kalman.unscented_kalman_filter:UnscentedKalmanFilter.calculateMeasurementMatrix",
     "resonaate.estimation.kalman.unscented_kalman_filter:UnscentedKalmanFilter.forecast",
     "resonaate.estimation.kalman.unscented_kalman_filter:UnscentedKalmanFilter.update",
+    "resonaate.estimation.particle.genetic_particle_filter:GeneticParticleFilter.forecast",
+    "resonaate.estimation.particle.genetic_particle_filter:GeneticParticleFilter.calculateResidualsFromObservations",
 ]
 BOUNDS = {"angles": "helpers: any real in [-1e7, 1e7] incl. exact multiples of pi; UKF obligations: sigma-point angles, measured angles and wrap-point offsets c any real in [-100, 100]",
           "turns": "|k| <= 1e6, one independent turn count per sigma-point angle and per measured angle",
@@ -43,7 +46,9 @@ BOUNDS = {"angles": "helpers: any real in [-1e7, 1e7] incl. exact multiples of p
 OUTSIDE = ["double rounding in fmod/remainder (an angle within 1 ulp of the seam) and in the filter algebra ('up to rounding' in the property is not quantified)",
            "state dimensions above 2; more than three stacked observations (property text: up to four), three stacked observations for state dimension 2 (the 3x3 adjugate identity for est_p did not decide within 25 min); symbolic tuning constants in the update obligations",
            "degenerate weighted resultant sum_j w_j (cos, sin)(theta_j) = 0 (numpy's arctan2(0, 0) = 0 carries no direction; possible with a negative centre weight)",
-           "singular innovation covariance", "genetic_particle_filter (anchor file; uses the same helpers, not executed)",
+           "singular innovation covariance",
+           "genetic particle filter: forecast() is executed (O8: residual rows, weight exponents, normalised scores, both list orders; 2 particles, state dimension 2, two observations of 1-2 "
+           "components with linear measurement rows, exp cut to a positive value per call); its random resampling/crossover, predict() and the innovation/NIS bookkeeping of update() are not",
            "that the rotated configuration's measured angle is congruent to y + c is an input relation, not derived from a sensor model",
            "filter objects reused across several predict() steps (O7 re-uses the object within one step: the posterior of an update is a rational function whose Cholesky factor is not "
            "available symbolically); stale state other than what update() publishes (mean_pred_y, sigma_y_res, innovation, est_x, est_p, is_angular)",
@@ -1384,6 +1389,214 @@ def o6_order(rep, cfg, perms):
 REPLAYS = {"O1": replay_wrap, "O2": replay_residual, "O2s": replay_residual1, "O3": replay_vec, "O4": replay_mean, "O4b": replay_mean}
 
 
+# =======================================================================================
+# Genetic particle filter: forecast() over simultaneous observations (O8)
+# =======================================================================================
+class _NumpyWith:
+    """the numpy module with a few names replaced (shadowed as `np` in the particle-filter module)"""
+
+    def __init__(self, **over):
+        self.__dict__["_over"] = over
+
+    def __getattr__(self, k):
+        over = self.__dict__["_over"]
+        return over[k] if k in over else getattr(np, k)
+
+
+class _ExpCut:
+    """numpy.exp cut to a fresh positive value per call; the argument the code passes is recorded"""
+
+    def __init__(self, tag):
+        self.tag, self.calls = tag, []
+
+    def __call__(self, a):
+        a = a.item() if isinstance(a, np.ndarray) else a
+        v = real(f"exp{self.tag}_{len(self.calls)}")
+        assume(v.t > 0)
+        self.calls.append((a if isinstance(a, SReal) else SReal(a), v))
+        return v
+
+
+GPF_CASES = {"ap|lin": (["ap"], ["lin"]), "lin|a0": (["lin"], ["a0"]), "lin|lin": (["lin"], ["lin"]), "a0|ap": (["a0"], ["ap"]),
+             "ap|lin+lin": (["ap"], ["lin", "lin"]), "lin|a0+lin": (["lin"], ["a0", "lin"])}
+
+
+def _gpf_obs(tag, kinds, n, N, pop, sensor_id):
+    m = len(kinds)
+    h, y, Lr = reals(f"h{tag}", m, n), reals(f"y{tag}", m), _lower(f"Lr{tag}", m)
+    comps = []
+    for j, kind in enumerate(kinds):
+        if _ang(kind):
+            lo, hi = _lowhigh(kind)
+            # an angular measurement function returns values of its principal range
+            assume(y[j].t >= rv(lo), y[j].t < rv(hi))
+            for i in range(N):
+                v = h[j].dot(pop[:, i])
+                assume(v.t >= rv(lo), v.t < rv(hi))
+        comps.append((kind, (lambda hj: lambda st: hj.dot(st))(h[j])))
+    o = UObs(comps, Lr.dot(Lr.T), y)
+    o.sensor_id = sensor_id
+    o.h, o.kinds = h, kinds
+    return o
+
+
+def _gpf_run(case, n=2, N=2):
+    from resonaate.estimation.particle import genetic_particle_filter as G
+
+    kA, kB = GPF_CASES[case]
+    pop, s = reals("p", n, N), reals("s", N)
+    for i in range(N):
+        assume(s[i].t >= 0)
+    # the observation listed first carries the larger sensor id (so any sensor-id ordering differs from list order)
+    oA, oB = _gpf_obs("A", kA, n, N, pop, 22), _gpf_obs("B", kB, n, N, pop, 21)
+    outs = []
+    for tag, order in (("f", [oA, oB]), ("r", [oB, oA])):
+        f = object.__new__(G.GeneticParticleFilter)
+        f.population, f.scores, f.population_size = pop.copy(), s.copy(), N
+        cut = _ExpCut(tag)
+        with X_shadow(G, np=_NumpyWith(exp=cut)):
+            f.forecast(order)
+        outs.append({"order": order, "scores": f.scores, "calls": cut.calls, "res": f.particle_residuals, "R": f.r_matrix, "ang": f.is_angular})
+    return pop, s, oA, oB, outs
+
+
+def _gpf_inputs(case, n=2, N=2):
+    kA, kB = GPF_CASES[case]
+
+    def inputs(m):
+        d = {"case": case, "pop": [[mfloat(m, z3.Real(f"p_{i}_{j}")) for j in range(N)] for i in range(n)], "s": [mfloat(m, z3.Real(f"s_{i}")) for i in range(N)], "obs": []}
+        for tag, kinds in (("A", kA), ("B", kB)):
+            mm = len(kinds)
+            d["obs"].append({"kinds": kinds, "h": [[mfloat(m, z3.Real(f"h{tag}_{j}_{i}")) for i in range(n)] for j in range(mm)],
+                             "y": [mfloat(m, z3.Real(f"y{tag}_{j}")) for j in range(mm)],
+                             "Lr": [[mfloat(m, z3.Real(f"Lr{tag}_{i}_{j}")) if j <= i else 0.0 for j in range(mm)] for i in range(mm)]})
+        return d
+
+    return inputs
+
+
+def replay_gpf(d):
+    """real GeneticParticleFilter.forecast on doubles, both list orders, against the directly computed weights
+    w_i ~ [s_i > 1e-12] exp(-1/2 sum_o r_oi^T R_o r_oi), r = measured - predicted difference wrapped into (-pi, pi] for angular rows"""
+    from resonaate.estimation.particle import genetic_particle_filter as G
+
+    pop, s = np.array(d["pop"], dtype=float), np.array(d["s"], dtype=float)
+    obs = []
+    for k, e in enumerate(d["obs"]):
+        h, Lr = np.array(e["h"], dtype=float), np.array(e["Lr"], dtype=float)
+        o = UObs([(kind, (lambda hj: lambda st: float(hj.dot(st)))(h[j])) for j, kind in enumerate(e["kinds"])], Lr.dot(Lr.T), np.array(e["y"], dtype=float))
+        o.sensor_id = 22 - k
+        obs.append((o, h, e))
+    quad = np.zeros(pop.shape[1])
+    for o, h, e in obs:
+        for i in range(pop.shape[1]):
+            r = h.dot(pop[:, i]) - np.array(e["y"], dtype=float)
+            for j, kind in enumerate(e["kinds"]):
+                if _ang(kind):
+                    r[j] = math.pi - (math.pi - r[j]) % (2 * math.pi)
+            quad[i] += r.dot(o.r_matrix).dot(r)
+    w = np.exp(-0.5 * quad) * (s > 1e-12)
+    w = w / w.sum() if w.sum() != 0.0 else np.ones_like(w) / len(w)
+    got, rows_bad = [], []
+    tol = 1e-7
+    for order in ([obs[0], obs[1]], [obs[1], obs[0]]):
+        f = object.__new__(G.GeneticParticleFilter)
+        f.population, f.scores, f.population_size = pop.copy(), s.copy(), pop.shape[1]
+        f.forecast([o for o, _h, _e in order])
+        got.append(np.array(f.scores, dtype=float))
+        # residual rows in list order (angular rows compared modulo a whole turn, and required in (-pi, pi])
+        k = 0
+        for o, h, e in order:
+            for j, kind in enumerate(e["kinds"]):
+                for i in range(pop.shape[1]):
+                    want = h[j].dot(pop[:, i]) - e["y"][j]
+                    have = float(f.particle_residuals[k, i])
+                    if _ang(kind):
+                        dd = abs(have - want)
+                        if min(dd, abs(dd - 2 * math.pi)) > tol or not (-math.pi - 1e-12 < have <= math.pi + 1e-12):
+                            rows_bad.append((k, i, have, want))
+                    elif abs(have - want) > tol:
+                        rows_bad.append((k, i, have, want))
+                k += 1
+    bad = bool(rows_bad or np.max(np.abs(got[0] - got[1])) > tol or np.max(np.abs(got[0] - w)) > tol or np.max(np.abs(got[1] - w)) > tol)
+    return bad, {"scores_listed_order": got[0].tolist(), "scores_reversed_order": got[1].tolist(), "direct_formula": w.tolist(), "residual_rows_off (row, particle, stored, expected)": rows_bad[:6]}
+
+
+def _sr(v):
+    return v if isinstance(v, SReal) else SReal(v)
+
+
+def o8_gpf(rep, case, part=0, parts=1):
+    n, N = 2, 2
+    res = explore(lambda: _gpf_run(case, n, N), max_paths=5000, max_depth=200)
+    rep.note(f"paths={len(res)}")
+    inputs = _gpf_inputs(case, n, N)
+    done = 0
+    for idx, r in enumerate(res):
+        if r.exc is not None:
+            rep.error("exception", repr(r.exc))
+            continue
+        if idx % parts != part:
+            continue
+        done += 1
+        pop, s, oA, oB, outs = r.out
+        tag = f"p{idx}"
+        cons = r.constraints
+        goals_rows, goals_arg, goals_w = [], [], []
+        for out in outs:
+            rows = [(o, j) for o in out["order"] for j in range(len(o.kinds))]
+            Rspec = np.zeros((len(rows), len(rows)), dtype=object)
+            k0 = 0
+            for o in out["order"]:
+                mm = len(o.kinds)
+                Rspec[k0:k0 + mm, k0:k0 + mm] = o.r_matrix
+                k0 += mm
+            for i in range(N):
+                rvec = []
+                for k, (o, j) in enumerate(rows):
+                    code = out["res"][k, i]
+                    code = code if isinstance(code, SReal) else SReal(code)
+                    diff = o.h[j].dot(pop[:, i]) - o.measurement_states[j]
+                    if _ang(o.kinds[j]):
+                        dd = code.t - diff.t
+                        goals_rows.append(z3.And(code.t > -PI, code.t <= PI, z3.Or(dd == 0, dd == TWOPI, dd == -TWOPI)))
+                    else:
+                        goals_rows.append(code.t == diff.t)
+                    rvec.append(code)
+                q = SReal(0)
+                for a in range(len(rows)):
+                    for b in range(len(rows)):
+                        Rab = Rspec[a, b]
+                        if isinstance(Rab, SReal):
+                            q = q + rvec[a] * Rab * rvec[b]
+                goals_arg.append(out["calls"][i][0].t == (SReal(rv(-0.5)) * q).t)
+            ev = [out["calls"][i][1] for i in range(N)]
+            mask = [z3.If(s[i].t > rv(1e-12), z3.RealVal(1), z3.RealVal(0)) for i in range(N)]
+            tot = sum(ev[i].t * mask[i] for i in range(N))
+            for i in range(N):
+                sc = _sr(out["scores"][i])
+                goals_w.append(z3.If(tot == 0, sc.t == rv(1) / N, sc.t * tot == ev[i].t * mask[i]))
+        rep.prove(f"rows[{tag}]", z3.And(*goals_rows), cons, timeout_ms=30000, inputs=inputs, replay=replay_gpf,
+                  sample="particle_residuals row k, particle i = residual of the k-th listed observation component: angular rows wrapped into (-pi, pi] and congruent to predicted - measured, plain rows the plain difference")
+        rep.prove(f"exponent[{tag}]", z3.And(*goals_arg), cons, timeout_ms=30000, inputs=inputs, replay=replay_gpf,
+                  sample="argument of exp for particle i = -1/2 sum over the listed observations of r_oi^T R_o r_oi (each observation's residual meets its own noise block)")
+        gw = z3.And(*goals_w)
+        rep.prove(f"weights[{tag}]", gw, slice_for(gw, cons), timeout_ms=30000, inputs=inputs, replay=replay_gpf,
+                  sample="scores after forecast() = exp value times the old-score mask, normalised (uniform when all vanish)")
+        same = z3.And(*[outs[0]["calls"][i][0].t == outs[1]["calls"][i][0].t for i in range(N)])
+        if rep.prove(f"order-exponent[{tag}]", same, cons, timeout_ms=30000, inputs=inputs, replay=replay_gpf,
+                     sample="the exponent of every particle is the same for both list orders of the observations"):
+            link = [outs[0]["calls"][i][1].t == outs[1]["calls"][i][1].t for i in range(N)]
+            eq = z3.And(*[_sr(outs[0]["scores"][i]).t == _sr(outs[1]["scores"][i]).t for i in range(N)])
+            rep.prove(f"order-scores[{tag}]", eq, slice_for(eq, list(cons) + link), timeout_ms=30000, inputs=inputs, replay=replay_gpf,
+                      sample="scores after forecast() are the same for both list orders (exp values identified, justified by order-exponent)")
+    if done == 0 and parts <= len(res):
+        rep.error("reach", "no path in this share")
+    if part == 0 and res and res[0].exc is None:
+        rep.reachable("gpf-path", res[0].constraints)
+
+
+
 def _cfg(n, tun, resample, obs, const=False):
     return {"n": n, "tun": tun, "resample": resample, "obs": obs, "const": const}
 
@@ -1462,6 +1675,16 @@ def obligations(tier):
         obs.append(Ob(f"O6-order-{sfx}", (lambda c, p: lambda rep: o6_order(rep, c, p))(cfg, perms),
                       "update(): stacked observations in another order give the same est_x, est_p (innovation permuted)", 1500 if tier == "thorough" else 300))
         REPLAYS[f"O6-order-{sfx}"] = replay_order
+    gpf = ["ap|lin", "lin|a0"] if tier == "quick" else list(GPF_CASES)
+    for case in gpf:
+        heavy = "+" in case
+        parts = 8 if heavy else 2
+        for part in range(parts):
+            name = f"O8-gpf-{case}" + (f"#{part}" if parts > 1 else "")
+            obs.append(Ob(name, (lambda c, a, b: lambda rep: o8_gpf(rep, c, a, b))(case, part, parts),
+                          "GeneticParticleFilter.forecast() over two simultaneous observations in both list orders: residual rows, exponent of every particle's weight, "
+                          "normalised scores against the direct formula; both orders give the same scores", 1500 if tier == "thorough" else 300, tiers=("quick", "thorough")))
+            REPLAYS[name] = replay_gpf
     return obs
 
 
